@@ -38,7 +38,7 @@ func init() {
 	})
 }
 
-var restrict = wprog.Restrict{}
+var restrict = wprog.Restrict{Bulk: true}
 
 func Run(e *core.Env) {
 	cfg := wprog.DrawConfig(e.T, &restrict)
